@@ -663,6 +663,13 @@ namespace Pistache::Http::Experimental
                     if (onDone)
                         onDone();
                 }
+                else
+                {
+                    // A complete response that no request is waiting for (e.g. one
+                    // that arrives after its request timed out): discard it so that
+                    // the next response is parsed from a clean state.
+                    parser.reset();
+                }
             }
         }
         catch (const std::exception& ex)
